@@ -1,0 +1,15 @@
+//go:build verif
+
+package backoff
+
+// Contracts for the verification framework in /verif (comment-only file,
+// compiled only with -tags verif; see /verif/DESIGN.md).
+
+//@ # ---------------------------------------------------------------- C17: retry delay bounds
+//@ # float64 is modelled as extended reals (NaN / +-Inf tracked exactly, rounding ignored)
+//@ func (*Config).Backoff(bc, attempt)
+//@   requires bc != nil
+//@   requires 0 <= bc.BaseDelay && bc.BaseDelay <= bc.MaxDelay && bc.MaxDelay <= 4611686018427387904
+//@   requires bc.Multiplier >= 1 && bc.Jitter >= 0 && bc.Jitter <= 1
+//@   ensures [delay-within-bounds] 0 <= result && real(result) <= real(bc.MaxDelay) * (1 + fval(bc.Jitter))
+//@   ensures attempt == 0 ==> result == bc.BaseDelay
